@@ -1,12 +1,45 @@
 """G-frag: random programs of the container fragment (lean/NimaVerif/Model/Cst.lean): nested sets,
-`rec` sets, lists, parenthesised expressions and function applications (curried, with comments between
-function and argument) over leaf values, depth <= 4, with random whitespace in every gap and line /
-single-line block comments between items, at ends of lines and (with probability `p_inner`) between
-the tokens of a binding. Never starts with whitespace. Small by construction (py-tree-sitter 0.26
-crashes beyond ~250 lines)."""
+`rec` sets, lists, parenthesised expressions, function applications (curried, with comments between
+function and argument) and `with E; B` / `assert E; B` over leaf values, depth <= 4, with random
+whitespace in every gap and line / single-line block comments between items, at ends of lines and
+(with probability `p_inner`) between the tokens of a binding. A `with` / `assert` node has
+whitespace-only gaps before its head, its `;` and its body, except with probability `p_kw` per node,
+where these three gaps may hold comments too. `with` / `assert` stand bare only where the grammar
+reads them as one expression (top level, binding value, inside parentheses, body of another `with` /
+`assert`, rarely as the head of one); elsewhere they are parenthesised. Wherever a leaf may stand
+(and as the function of an application) there may be a select `BASE.a.b` (no `or` default) instead:
+BASE an identifier, a string, a parenthesis, a list or a (`rec`) set — never a number or a path, which
+lex differently in front of a `.` (`1.a` is `1.` applied to `a`, `./p.nix.a` one path), never another
+select (`a.b .c` is ONE select with whitespace inside its attrpath) —, one to three segments
+(identifiers, now and then a "string") with nothing between segments and dots, a whitespace gap in
+front of the first `.` (mostly empty, sometimes a line break and indentation; with probability
+`p_sel_cmt` per select it holds comments too) and, one time in ten, whitespace between that `.` and
+the attrpath. A select binds tighter than application, so it is never parenthesised.
+With probability `p_lam` an expression position of depth > 0 holds a lambda `NAME g1 : g2 BODY`, NAME one
+of a few identifiers (no keyword). Like `with` / `assert` it reaches as far right as it can, so it is
+bare at top level, as a binding value, inside parentheses and as the body of `with` / `assert` / a lambda
+(`x: y: …` comes about that way) and parenthesised elsewhere (list element, function / argument of an
+application, base of a select, head of `with` / `assert`). g1 is mostly empty, now and then a blank or a
+line break with indentation, and holds comments with probability `p_lam_cmt` per lambda; g2 is mostly one
+blank, sometimes line breaks (1–3) with indentation, sometimes empty — but only in front of `(` `[` `{`
+`"`: `x:y`, `x:1`, `x:./p`, `x:/*c*/` … are ONE uri token — and holds comments only with probability
+`p_lam_body_cmt` (0 by default: the model does not cover those).
+With probability `p_bin` an expression position of depth > 0 holds a chain of one to three binary operators
+`E OP E [OP E [OP E]]` (`//` `++` `+` `==` `&&` `||` mostly, now and then `-` `*` `/` `!=` `<` `<=` `>` `>=`
+`->`; at most one of `==` `!=` and one of `<` `<=` `>` `>=` per chain, which Nix itself reads as
+non-associative). The operands are application-level expressions (leaf / select, parenthesis, application,
+list, set; a unary `!a` / `-a` bare only as the left-most operand); the chain is bare where a bare
+application is (top level, binding value, parenthesis, head / body of `with` / `assert`, body of a lambda)
+and parenthesised elsewhere. Both gaps of an operator hold at least one whitespace character (`a-b`, `a/b`,
+`a//b`, `<a>`, `a->b`, `/*` … are other tokens): mostly one blank, a line break with indentation in front of
+the operator (15%) and / or behind it (15%), and with probability `p_bin_cmt` per operator comments in one
+of the two gaps (the model does not cover those).
+Never starts with whitespace.
+Small by construction (py-tree-sitter 0.26 crashes beyond ~250 lines)."""
 from __future__ import annotations
 
 import random
+import re
 
 GAPS = ["", " ", "  ", "\t", "\n", "\n\n", "\n\n\n", "\n   "]
 SEPS = [" ", "  ", "\t", "\n", "\n\n", "\n\n\n", "\n   "]
@@ -14,12 +47,42 @@ LEAVES = ["a", "foo", "true", "false", "null", "0", "1", "42", "3.14", ".5", '"s
           '"x${y}z"', "./p.nix", "../q/r.nix", "<nixpkgs>", "~/h", "x'", "b-c", "_u"]
 NAMES = ["a", "b", "foo", '"q r"', "x'", "c-d", '"é"']
 FUNCS = ["f", "foo", "x'", "b-c", "_u", "import"]
+SEL_BASES = ["a", "foo", "pkgs", "lib", "x'", "b-c", "_u", "self", '"s"', '"x${y}z"']
+SEL_SEGS = ["a", "b", "foo", "lib", "x'", "c-d", "_u", "a", "b", "foo", "lib", '"q r"', '"é"']   # no keyword, no `or`
+SEL_GAPS = [""] * 9 + [" ", "\n", "\n  ", "\n    "]
+LAM_NAMES = ["x", "x", "y", "self", "super", "args", "final", "prev", "_"]   # no keyword
+LAM_G1 = [""] * 14 + [" ", " ", " ", " ", "  ", "\n  "]
+LAM_G2 = [" "] * 12 + ["", "", "", "  ", "\n", "\n  ", "\n  ", "\n    ", "\n\n  ", "\n\n\n  "]
+BIN_OPS = (["//"] * 5 + ["++"] * 5 + ["+"] * 5 + ["=="] * 4 + ["&&"] * 4 + ["||"] * 4
+           + ["-", "*", "/", "!=", "<", "<=", ">", ">=", "->", "->"])
+BIN_NONASSOC = [("==", "!="), ("<", "<=", ">", ">=")]
+BIN_NL = ["\n  ", "\n  ", "\n    ", "\n", "\n      "]
 WS = (" ", "\t", "\n")
+# tree-sitter-nix quirk: in the trivia run that follows a `./…` / `../…` / `~/…` path, two block comments
+# with nothing between them (`*//*`) are a syntax error; such documents are not generated
+PATH_QUIRK = re.compile(r"(?:nix|~/h)(?:\s|#[^\n]*\n|/\*.*?\*/)*?/\*.*?\*//\*")
 
 
 class FragGen:
-    def __init__(self, rng: random.Random, p_cmt: float, p_inner: float):
+    def __init__(self, rng: random.Random, p_cmt: float, p_inner: float, p_kw: float = 0.25, p_kw_cmt: float = 0.4,
+                 p_sel: float = 0.22, p_sel_cmt: float = 0.15, p_lam: float = 0.13, p_lam_cmt: float = 0.1,
+                 p_lam_body_cmt: float = 0.0, p_bin: float = 0.17, p_bin_cmt: float = 0.08):
+        """`p_kw`: probability that a `with` / `assert` node may have comments in its three inner gaps;
+        `p_kw_cmt`: comment density (as for `gap`) in the inner gaps of such a node;
+        `p_sel`: probability that a leaf position (or the function of an application) holds a select;
+        `p_sel_cmt`: probability that a select has comments between its base and the `.`.
+        `p_lam`: probability that an expression position of depth > 0 holds a lambda;
+        `p_lam_cmt`: probability that a lambda has comments between its name and the `:`;
+        `p_lam_body_cmt`: probability that a lambda has comments between the `:` and its body.
+        `p_bin`: probability that an expression position of depth > 0 holds a chain of binary operators;
+        `p_bin_cmt`: probability that a binary operator has comments in one of its two gaps.
+        `self.sels` counts the selects written (what the CST of the text must hold as `D` / `O` nodes),
+        `self.lams` the lambdas (`F1` nodes), `self.bins` the binary operators (`B` nodes)"""
         self.rng, self.p_cmt, self.p_inner, self.n = rng, p_cmt, p_inner, 0
+        self.p_kw, self.p_kw_cmt = p_kw, p_kw_cmt
+        self.p_sel, self.p_sel_cmt, self.sels = p_sel, p_sel_cmt, 0
+        self.p_lam, self.p_lam_cmt, self.p_lam_body_cmt, self.lams = p_lam, p_lam_cmt, p_lam_body_cmt, 0
+        self.p_bin, self.p_bin_cmt, self.bins = p_bin, p_bin_cmt, 0
 
     def comment(self):
         self.n += 1
@@ -59,6 +122,8 @@ class FragGen:
             f = self.app(depth - 1)
         elif depth > 0 and r < 0.45:
             f = self.paren(depth - 1)
+        elif self.rng.random() < self.p_sel:
+            f = self.select(depth - 1)   # `a.b c` is `(a.b) c`
         else:
             f = self.rng.choice(FUNCS)
         a = self.expr(depth - 1, "arg")
@@ -71,31 +136,210 @@ class FragGen:
             g = " "
         if a[0] in "./~<" and not g.endswith(WS):
             g += " "
-        return f + g + a
+        return f + self._after(f, f, g) + a   # curried: the function may end in a path
+
+    def kw(self, depth: int) -> str:
+        """`with` g1 environment g2 `;` g3 body  /  `assert` g1 condition g2 `;` g3 body; the head is any
+        expression (a `with` / `assert` there is mostly parenthesised), the body extends to the right as far
+        as it can, so it may be a bare application or another `with` / `assert`"""
+        p = self.p_kw_cmt if self.rng.random() < self.p_kw else 0.0
+        s = self.rng.choice(["with", "with", "assert"])
+        h = self.expr(depth - 1, "head")
+        g = self.gap(p)
+        if not g.endswith(WS) and not (g == "" and h[0] in "[{(") and not (g.endswith("*/") and h[0] not in "./~<"):
+            g += " "   # `witha`, `with./p.nix`, `with/*c*/./p.nix` … would be other tokens
+        s += g + h
+        s += self._after(s, h, self.gap(p)) + ";"
+        g = self.gap(p)
+        b = self.expr(depth - 1, "body")
+        if g.endswith("*/") and b[0] in "./~<":
+            g += " "
+        return s + g + b
+
+    def _cmt_run(self, first_gaps, p_more: float = 0.3) -> str:
+        """a gap that holds at least one comment; ends in whitespace or `*/`"""
+        s = self.rng.choice(first_gaps)
+        while True:
+            c, line = self.comment()
+            s += c + (("\n" + self.rng.choice(["", " ", "  ", "\n", "\n  "])) if line else self.rng.choice(GAPS))
+            if self.rng.random() >= p_more:
+                return s
+
+    def lam(self, depth: int) -> str:
+        """NAME g1 `:` g2 BODY; the body extends to the right as far as it can, so it may be a bare
+        application, `with` / `assert` or another lambda"""
+        self.lams += 1
+        s = self.rng.choice(LAM_NAMES)
+        s += self._cmt_run(GAPS) if self.rng.random() < self.p_lam_cmt else self.rng.choice(LAM_G1)
+        s += ":"
+        b = self.expr(depth - 1, "body")
+        if self.rng.random() < self.p_lam_body_cmt:
+            g = self._cmt_run(SEPS)   # `x:/*c*/` and `x:#` … : whitespace first
+            if g.endswith("*/") and b[0] in "./~<":
+                g += " "
+        else:
+            g = self.rng.choice(LAM_G2)
+            if g == "" and b[0] not in '([{"':
+                g = " "   # `x:y`, `x:1`, `x:./p.nix`, `x:rec{}` … would be one uri token
+        return s + g + b
+
+    def unary(self, depth: int) -> str:
+        """`!` / `-` GAP OPERAND; the operand an application-level expression"""
+        op = self.rng.choice(["!", "!", "-"])
+        r = self.rng.random()
+        if r < 0.08:
+            g = self._cmt_run(GAPS)
+        else:
+            g = self.rng.choice(["", "", "", "", " ", " ", "\n  "])
+        if depth <= 0 or self.rng.random() < 0.5:
+            b = self.leaf(depth)
+        elif self.rng.random() < 0.5:
+            b = self.paren(depth)
+        else:
+            b = self.app(depth)
+        if op == "-" and (b[0].isdigit() or b[0] in "-.>") and g == "":
+            g = " "   # `-1`, `--x`, `->`: keep the operator a token of its own
+        if g.endswith("*/") and b[0] in "./~<":
+            g += " "
+        return op + g + b
+
+    def operand(self, depth: int, first: bool) -> str:
+        """operand of a binary operator: an application-level expression"""
+        r = self.rng.random()
+        if depth <= 0 or r < 0.5:
+            return self.leaf(depth)
+        if r < 0.62:
+            return self.paren(depth)
+        if r < 0.78:
+            return self.app(depth)
+        if r < 0.86:
+            return self.lst(depth)
+        if r < 0.94:
+            return self.attrset(depth)
+        # `a + -b`, `a && !b` … : precedence surprises; bare only in front
+        return self.unary(depth - 1) if first else "(" + self.unary(depth - 1) + ")"
+
+    def bin_gap(self, p_nl: float, cmt: bool) -> str:
+        """gap on one side of a binary operator: starts and ends with whitespace"""
+        if cmt:
+            g = self._cmt_run(SEPS)
+            return g if g.endswith(WS) else g + " "
+        return self.rng.choice(BIN_NL) if self.rng.random() < p_nl else self.rng.choice([" "] * 9 + ["  "])
+
+    def binary(self, depth: int) -> str:
+        """E OP E [OP E [OP E]]; tree-sitter decides how the operators nest"""
+        s = self.operand(depth - 1, True)
+        used = set()
+        for _ in range(self.rng.choice([1, 1, 1, 1, 2, 2, 3])):
+            while True:
+                op = self.rng.choice(BIN_OPS)
+                cls = next((c for c in BIN_NONASSOC if op in c), None)
+                if cls is None or cls not in used:
+                    break
+            if cls is not None:
+                used.add(cls)
+            self.bins += 1
+            side = self.rng.choice([1, 2]) if self.rng.random() < self.p_bin_cmt else 0
+            s += self.bin_gap(0.15, side == 1) + op + self.bin_gap(0.15, side == 2)
+            s += self.operand(depth - 1, False)
+        return s
+
+    def select(self, depth: int) -> str:
+        """BASE g1 `.` gd a₁.a₂.….aₙ; BASE a single token, or (depth > 0) a parenthesis / list / set"""
+        self.sels += 1
+        r = self.rng.random()
+        if depth <= 0 or r < 0.65:
+            s = self.rng.choice(SEL_BASES)
+        elif r < 0.85:
+            s = self.paren(depth)   # `(x: x).a`: a lambda as the base only inside parentheses
+        elif r < 0.92:
+            s = self.lst(depth)
+        else:
+            s = self.attrset(depth)
+        if self.rng.random() < self.p_sel_cmt:
+            s += self.rng.choice(GAPS)
+            while True:
+                c, line = self.comment()
+                s += c + (("\n" + self.rng.choice(["", " ", "  ", "\n", "\n  "])) if line else self.rng.choice(GAPS))
+                if self.rng.random() >= 0.3:
+                    break
+        else:
+            s += self.rng.choice(SEL_GAPS)
+        s += "."
+        if self.rng.random() < 0.1:
+            s += self.rng.choice([" ", "  ", "\n", "\n  "])
+        s += ".".join(self.rng.choice(SEL_SEGS) for _ in range(self.rng.choice([1, 1, 1, 2, 2, 3])))
+        if self.rng.random() < 0.25:
+            # `or` default: a select-level expression (token, parenthesis, list, set, another select)
+            if self.rng.random() < 0.15:
+                s += self.rng.choice(GAPS)
+                c, line = self.comment()
+                s += c + (("\n" + self.rng.choice(["", " ", "  "])) if line else self.rng.choice([" ", "  ", "\n  "]))
+            else:
+                s += self.rng.choice([" ", " ", " ", "  ", "\n", "\n  ", "\n\n    "])
+            s += "or" + self.rng.choice([" ", " ", " ", "  ", "\n  "])
+            r2 = self.rng.random()
+            if depth <= 0 or r2 < 0.5:
+                s += self.rng.choice(SEL_BASES)
+            elif r2 < 0.7:
+                s += self.paren(depth - 1)
+            elif r2 < 0.8:
+                s += self.lst(depth - 1)
+            elif r2 < 0.9:
+                s += self.attrset(depth - 1)
+            else:
+                s += self.select(depth - 1)
+        return s
+
+    def leaf(self, depth: int) -> str:
+        if self.rng.random() < self.p_sel:
+            return self.select(depth)
+        return self.rng.choice(LEAVES)
 
     def expr(self, depth: int, ctx: str = "top") -> str:
+        if depth > 0 and self.rng.random() < self.p_lam:
+            # a lambda reaches as far right as it can, like `with` / `assert`: bare only where nothing may
+            # follow it but a closing token
+            return self.lam(depth) if ctx in ("top", "value", "paren", "body") else "(" + self.lam(depth) + ")"
+        if depth > 0 and self.rng.random() < 0.07:
+            # a unary operator binds looser than application and select
+            return self.unary(depth - 1) if ctx in ("top", "value", "paren", "head", "body") else "(" + self.unary(depth - 1) + ")"
+        if depth > 0 and self.rng.random() < self.p_bin:
+            # binary operators bind looser than application and select: bare where a bare application is
+            return self.binary(depth) if ctx in ("top", "value", "paren", "head", "body") else "(" + self.binary(depth) + ")"
         r = self.rng.random()
-        if depth <= 0 or r < 0.25:
-            return self.rng.choice(LEAVES)
-        if r < 0.37:
+        if depth <= 0 or r < 0.2:
+            return self.leaf(depth)
+        if r < 0.3:
             return self.paren(depth)
-        if r < 0.5:
+        if r < 0.4:
             # a bare application only where the grammar reads it as one expression
-            return self.app(depth) if ctx in ("top", "value", "paren") else "(" + self.app(depth) + ")"
-        if r < 0.75:
-            n = self.rng.choice([0, 0, 1, 1, 2, 3])
-            s = "["
-            for _ in range(n):
-                s += self.gap(self.p_cmt)
-                if not s.endswith(WS) and not s.endswith(("[", "/")):
-                    s += " "
-                if s.endswith("/"):
-                    s += " "
-                s += self.expr(depth - 1, "elem")
-                if not s.endswith(("]", "}", ")")) or self.rng.random() < 0.7:
-                    s += self.rng.choice(SEPS)
+            return self.app(depth) if ctx in ("top", "value", "paren", "head", "body") else "(" + self.app(depth) + ")"
+        if r < 0.6:
+            # `with` / `assert` reach as far right as they can: bare only where nothing may follow them
+            # but a closing token (`with with a; b; c` reads as `with (with a; b); c`)
+            bare = ctx in ("top", "value", "paren", "body") or (ctx == "head" and self.rng.random() < 0.25)
+            return self.kw(depth) if bare else "(" + self.kw(depth) + ")"
+        if r < 0.8:
+            return self.lst(depth)
+        return self.attrset(depth)
+
+    def lst(self, depth: int) -> str:
+        n = self.rng.choice([0, 0, 1, 1, 2, 3])
+        s = "["
+        for _ in range(n):
             s += self.gap(self.p_cmt)
-            return s + "]"
+            if not s.endswith(WS) and not s.endswith(("[", "/")):
+                s += " "
+            if s.endswith("/"):
+                s += " "
+            s += self.expr(depth - 1, "elem")
+            if not s.endswith(("]", "}", ")")) or self.rng.random() < 0.7:
+                s += self.rng.choice(SEPS)
+        s += self.gap(self.p_cmt)
+        return s + "]"
+
+    def attrset(self, depth: int) -> str:
         s = ("rec" + self.rng.choice(GAPS) if self.rng.random() < 0.2 else "") + "{"
         for _ in range(self.rng.choice([0, 1, 1, 2, 3])):
             s += self.gap(self.p_cmt)
@@ -117,8 +361,10 @@ class FragGen:
         while self.rng.random() < self.p_cmt * 0.7:
             c, line = self.comment()
             s += c + ("\n" if line else self.rng.choice(["\n", " ", ""])) + self.rng.choice(["", "\n", "  "])
-        s += self.expr(depth)
-        s += self.gap(self.p_cmt, sep_before=False)
+        # `with …; …` around the whole file is the most common use: a few more of these
+        v = self.kw(depth) if depth > 0 and self.rng.random() < 0.12 else self.expr(depth)
+        s += v
+        s += self._after(s, v, self.gap(self.p_cmt, sep_before=False))
         if self.rng.random() < 0.6 and not s.endswith("\n"):
             s += "\n"
         return s
@@ -126,12 +372,36 @@ class FragGen:
 
 def programs(rng: random.Random, n: int):
     """yields n fragment programs (text); mixture of comment densities; about a third with comments
-    between the tokens of bindings"""
+    between the tokens of bindings; a quarter of the `with` / `assert` nodes (none / a quarter / half,
+    by document) may have comments in their inner gaps; selects may have comments in front of their `.`
+    with probability 0 / 0.15 / 0.3 (by document)"""
+    for t, _, _ in programs_tallied(rng, n):
+        yield t
+
+
+def programs_counted(rng: random.Random, n: int):
+    """as `programs`, yielding (text, number of selects written)"""
+    for t, sels, _ in programs_tallied(rng, n):
+        yield t, sels
+
+
+def programs_tallied(rng: random.Random, n: int):
+    """as `programs`, yielding (text, number of selects written, number of lambdas written); lambdas
+    may have comments in front of their `:` with probability 0 / 0.1 / 0.2 (by document)"""
+    for t, sels, lams, _ in programs_tallied4(rng, n):
+        yield t, sels, lams
+
+
+def programs_tallied4(rng: random.Random, n: int):
+    """as `programs_tallied`, yielding (text, selects, lambdas, binary operators written); binary operators
+    may have comments in one of their gaps with probability 0 / 0.08 / 0.16 (by document)"""
     made = 0
     while made < n:
-        g = FragGen(rng, rng.choice([0.0, 0.2, 0.5]), rng.choice([0.0, 0.0, 0.3]))
+        g = FragGen(rng, rng.choice([0.0, 0.2, 0.5]), rng.choice([0.0, 0.0, 0.3]), rng.choice([0.0, 0.25, 0.5]),
+                    p_sel_cmt=rng.choice([0.0, 0.15, 0.3]), p_lam_cmt=rng.choice([0.0, 0.1, 0.2]),
+                    p_bin_cmt=rng.choice([0.0, 0.08, 0.16]))
         t = g.file(rng.randint(0, 4))
-        if t.count("\n") > 150 or t[:1] in WS:
+        if t.count("\n") > 150 or t[:1] in WS or PATH_QUIRK.search(t):
             continue
         made += 1
-        yield t
+        yield t, g.sels, g.lams, g.bins
